@@ -19,6 +19,7 @@ from sa.teval import teval, UNKNOWN
 from sa.model import dotted, own_calls, own_nodes
 from . import common, parity
 from . import C03 as c03
+from . import C13 as c13
 
 T = "toasty.toast"
 P = "toasty.pyramid"
@@ -439,6 +440,9 @@ def _r3(run):
             okg = okg and flt is not None and filter_ok(flt)
     if okg:
         run.holds("C06.R3", f, None, "TOAST enumeration gets self.depth, self._tile_filter, coordsys=self._coordsys, bottom_only=False")
+    elif not gens and c13._delegating_yield_from(project, f):
+        x_, g_ = c13._delegating_yield_from(project, f)[0]
+        run.undecided("C06.R3", f, x_, "Pyramid._generator delegates to %s with `yield from`: the TOAST enumeration is not followed there" % g_.short, kind="generator-delegated")
     else:
         run.violated("C06.R3", f, gens[0].node if gens else None, "Pyramid._generator does not pass depth / tile filter / coordinate system / bottom_only=False "
                      "to the TOAST tile enumeration", kind="generator-args")
